@@ -85,13 +85,36 @@ def allObs : List Obs := (entries.map (observe Gen.lockScripts)).flatten
 /-- the mutex that must be held for each tracked field -/
 def guardOf : String → String
   | "fids" => "fidMu" | "tags" => "tagMu" | "childNodes" => "childMu" | "childRefs" => "childMu"
-  | "childRefNames" => "childMu" | "cache" => "mu" | "pending" => "pendingMu" | "paths" => "mu" | _ => "?"
+  | "childRefNames" => "childMu" | "cache" => "mu" | "pending" => "pendingMu" | "paths" => "mu"
+  | "wire.send" => "sendMu" | "wire.recv" => "recvMu" | _ => "?"
 
 /-- **lockset**: every access to a tracked shared field happens with its mutex held.
 (`connState.stop` iterates `cs.fids` after `pendingWg.Wait()`: no other goroutine of the connection
-exists any more – the one access exempted.) -/
+exists any more – the one access exempted.  Frames (`wire.send` / `wire.recv`: calls of the
+package-level `send` / `recv`) count as accesses to the connection: written under `sendMu`, read
+under `recvMu`; the client reads under its channel token instead, which is the `take` label of
+the ClientMux model.) -/
 def locksetOk : Bool :=
   allObs.all fun o => o.kind != "access" || holds o.held (guardOf o.what) || o.chain.getLast? == some "connState.stop"
+    || (o.what == "wire.recv" && o.chain.contains "Client.waitAndRecv")
+
+/-- the lockset obligation restricted to the QID mapper (C20) -/
+def mapperLocksetOk : Bool :=
+  let obs := observe Gen.lockScripts "Mapper.QIDFor"
+  obs.all (fun o => o.kind != "access" || holds o.held (guardOf o.what)) &&
+  (obs.filter fun o => o.kind == "access" && o.what == "paths").length ≥ 2
+
+/-- … restricted to the frames on the wire (C06) -/
+def wireLocksetOk : Bool :=
+  allObs.all fun o => !(o.kind == "access" && (o.what == "wire.send" || o.what == "wire.recv")) ||
+    holds o.held (guardOf o.what) || o.chain.contains "Client.waitAndRecv"
+
+/-- frames are really written and read somewhere in the scripts (the lockset obligation is not
+vacuous for the wire): the server writes replies at two sites and reads at one, the client
+writes at one -/
+def wireSitesSeen : Bool :=
+  (allObs.filter fun o => o.kind == "access" && o.what == "wire.send").length ≥ 3 &&
+  (allObs.filter fun o => o.kind == "access" && o.what == "wire.recv").length ≥ 2
 
 /-- leaf mutexes: never held while a backend File method runs -/
 def leafMutexes : List String := ["fidMu", "tagMu", "sendMu", "recvMu", "pendingMu", "mu"]
